@@ -82,6 +82,43 @@ def main():
                 r["traced"] = {h: {fill: runk(h, mk(fill)) for fill in ("zeros", "alt")} for h in ("jit", "eval_shape", "jit_of_jit", "vmap_all", "jit_vmap")}
                 res.append(r)
                 continue
+            if case.get("kind") == "mutated_node":
+                # a registered, mutable pytree node (a dataclass with a list field) is checked eagerly, then EXTENDED IN PLACE and passed
+                # again: the eager verdict is the one of the object as it is now, which is also what every transformation sees
+                import dataclasses as _dc
+
+                @_dc.dataclass
+                class Model:
+                    layers: list
+                jax.tree_util.register_pytree_node(Model, lambda m: ((m.layers,), None), lambda aux, cs: Model(list(cs[0])))
+
+                def f(model, x):
+                    return x
+                f.__annotations__ = {"model": PyTree[Float[Array, "n"]], "x": Float[Array, "n"]}
+                fn = jaxtyped(typechecker=tc)(f)
+                model = Model([jnp.ones(3), jnp.ones(3)])
+                x = jnp.ones(3)
+
+                def runm(how):
+                    try:
+                        if how == "eager":
+                            fn(model, x)
+                        elif how == "jit":
+                            jax.jit(fn)(model, x)
+                        elif how == "eval_shape":
+                            jax.eval_shape(fn, model, x)
+                        elif how == "eager_fresh_equal_object":
+                            fn(Model(list(model.layers)), x)
+                        return "ok"
+                    except BaseException as e:  # noqa
+                        return classify(e)
+                first = runm("eager")
+                model.layers.append(jnp.ones(case["extra"]))        # in place: the old leaves stay alive
+                second = runm("eager")
+                r = {"eager": {"zeros": second, "alt": second, "nan": second}, "first_eager": first,
+                     "traced": {h: {"zeros": runm(h)} for h in ("jit", "eval_shape", "eager_fresh_equal_object")}}
+                res.append(r)
+                continue
             if case.get("kind") == "pytree_first_traced":
                 # a function with a PyTree-of-arrays parameter whose FIRST EVER call is a traced one, under jax.checking_leaks():
                 # checking must not keep tracers alive beyond the trace (nor behave differently from the eager call that follows)
